@@ -320,3 +320,18 @@ func RunQuery(tmpdir, name, query string, timeoutS int, order []string) SolverRe
 	res.Seconds = time.Since(start).Seconds()
 	return res
 }
+
+// ForallAlt is Forall with ALTERNATIVE single-term patterns (each one triggers on its own).
+func ForallAlt(vars []Term, body Term, patterns ...Term) Term {
+	var b strings.Builder
+	b.WriteString("(forall (")
+	for _, v := range vars {
+		fmt.Fprintf(&b, "(%s %s)", v.S, v.Sort)
+	}
+	b.WriteString(") (! " + body.S)
+	for _, p := range patterns {
+		b.WriteString(" :pattern (" + p.S + ")")
+	}
+	b.WriteString("))")
+	return Term{b.String(), SBool}
+}
